@@ -3,19 +3,31 @@
  * version edit (rb_set + file_entry_compare), deleted_files / added_files of the version builder, the lock table of the
  * unix env (static RB_SET_INIT).  Properties C13 (exact membership), C14, C17.
  *
- * Method.  The pre-state is an ARBITRARY red-black tree of height <= RBT_D: a complete binary skeleton of 2^RBT_D - 1
- * heap nodes, each position present or not, colours / keys / values symbolic, restricted by the representation
- * invariant computed on the skeleton by straight-line code (mk_tree).  Every red-black tree with <= 12 nodes has
- * height <= 4, so RBT_D = 4 covers all of them (and those trees with up to 15 nodes that fit).  Both encodings of the
- * empty tree occur: root == NIL (rb_tree_init) and root == NULL (static RB_TREE_INIT).
+ * Two families of units, both BOUNDED (CBMC has no inductive predicates; the bound is the tree height / node count):
+ *
+ * (S) symbolic units.  The pre-state is an ARBITRARY red-black tree of height <= RBT_D: a complete binary skeleton of
+ *     2^RBT_D - 1 heap nodes, each position present or not, colours / 64-bit keys / values symbolic, restricted by the
+ *     representation invariant computed on the skeleton by straight-line code (mk_tree).  Both encodings of the empty
+ *     tree occur: root == NIL (rb_tree_init) and root == NULL (static RB_TREE_INIT).  Real malloc / free, all of CBMC's
+ *     memory-safety checks.  Measured cost: one rb_tree_put on a 3-node symbolic tree is ~650 k SAT variables, a del on
+ *     a 7-node one 3.9 M (> 5 min): RBT_D is 4 for the read-only operations and 2 for the mutating ones.
+ * (E) exhaustive units (-DRBT_ENUM).  Every red-black tree (shape and colouring) of height <= 4 is listed in RBT_TAB
+ *     (1082 trees, 0..15 nodes, sorted by node count; unit rbt.shapes proves by SAT that the table is complete);
+ *     a unit runs one operation for every tree of a node-count range and every argument position (each member, each
+ *     gap between members, both ends), keys 2,4,..,2n, through rb_set_* with a comparator on item numbers.  Everything
+ *     is concrete, so CBMC's symbolic execution acts as an interpreter of the real code and decides every check by
+ *     constant folding.  rbt.c uses keys only through tree->compare and copies them, so concrete keys lose nothing
+ *     but this data-independence argument is not machine-checked (the S units use symbolic 64-bit keys).
+ *
  * The post-state is examined by an independent recursive walk (inv_walk) that does not use the library:
  *   representation invariant: strict search-tree order (=> no node shared, no cycle), root black, no red node with a red
  *     child, equal black height on every path, parent pointers consistent, colours in {BLACK, RED}, size == node count,
  *     sentinel (NIL) bit-for-bit untouched;
- *   abstract set: membership of an ARBITRARY ghost key in_k, so each statement is about the whole set;
- *   map: the value stored with in_k.
+ *   abstract set: (S) membership of an ARBITRARY ghost key in_k, so each statement is about the whole set;
+ *                 (E) the complete in-order key sequence is compared with the expected one;
+ *   map: the value stored with each key travels with the key.
  * Since put / del / copy re-establish on every such tree the invariant that mk_tree assumes, and init establishes it,
- * the facts hold by induction for every tree the library can build, as far as the height bound reaches.
+ * the facts hold by induction for every tree the library can build, as far as the bounds reach.
  * free() inside rbt.c is routed through rbt_free (counts calls, remembers the pointer) so that "the removed node is
  * released exactly once and nothing else" is checkable.
  */
@@ -24,12 +36,23 @@ uint64_t nondet_u64(void);
 int nondet_int(void);
 size_t nondet_size(void);
 
-static unsigned g_frees;
+static unsigned g_frees, g_mallocs;
 static void *g_last_freed;
+#ifdef RBT_ENUM
+/* exhaustive units: nodes come from static pools so that CBMC's symbolic execution keeps every pointer concrete
+ * (pointers to malloc'ed objects are never constant-propagated; measured).  free() poisons the node instead. */
+#include "util/rbt.h"
+static rb_node_t e_pool[15], e_fresh[16];
+void *rbt_malloc(size_t n) { (void)n; return &e_fresh[g_mallocs++ & 15]; }
+void rbt_free(void *p) { rb_node_t *n = p; g_frees++; g_last_freed = p; n->parent = n->left = n->right = NULL; n->color = (rb_color_t)7; }
+#define malloc rbt_malloc
+#else
 void rbt_free(void *p) { g_frees++; g_last_freed = p; free(p); }
+#endif
 #define free rbt_free
 #include "util/rbt.c"
 #undef free
+#undef malloc
 
 #ifndef RBT_D
 #define RBT_D 4
@@ -48,7 +71,7 @@ static int item_cmp(rb_val_t x, rb_val_t y, void *arg) {
 }
 #define KEYOF(n) (g_ptrkeys ? ((const item_t *)(n)->key.ptr)->num : (n)->key.ui)
 
-/* ---- the skeleton */
+/* ---- the skeleton (heap-indexed: children of position i are 2i+1 and 2i+2) */
 static rb_node_t *sk[NP];
 static _Bool pres[NP];
 static uint64_t key0[NP];
@@ -57,11 +80,48 @@ static rb_color_t col0[NP];
 static item_t items[NP + 1];
 static char g_argobj;
 
+/* ---- independent walk of the post-state */
+static int w_bad; static size_t w_cnt; static unsigned w_seen; static uint64_t w_k; static rb_val_t w_val; static const rb_node_t *w_node;
+static int w_rec; static uint64_t w_keys[NP + 2], w_vals[NP + 2];   /* in-order listing (exhaustive units only) */
+static int inv_rec(const rb_node_t *n, const rb_node_t *parent, int lo_set, uint64_t lo, int hi_set, uint64_t hi, int parent_red, int fuel) {
+  int bl, br; uint64_t k;
+  if (n == NIL) return 0;
+  if (n == NULL || fuel == 0) { w_bad |= 1; return 0; }            /* dangling link / deeper than a red-black tree of this size can be */
+  k = KEYOF(n);
+  if (n->parent != parent) w_bad |= 2;                              /* parent pointers consistent */
+  if (n->color != RB_BLACK && n->color != RB_RED) w_bad |= 4;
+  if (parent_red && n->color == RB_RED) w_bad |= 8;                 /* no red node with a red child */
+  if ((lo_set && !(lo < k)) || (hi_set && !(k < hi))) w_bad |= 16;  /* strict search-tree order */
+  if (k == w_k) { w_seen++; w_val = n->val; w_node = n; }
+  bl = inv_rec(n->left, n, lo_set, lo, 1, k, n->color == RB_RED, fuel - 1);
+  if (w_rec && w_cnt < NP + 2) { w_keys[w_cnt] = k; w_vals[w_cnt] = n->val.ui; }
+  w_cnt++;
+  br = inv_rec(n->right, n, 1, k, hi_set, hi, n->color == RB_RED, fuel - 1);
+  if (bl != br) w_bad |= 32;                                        /* equal black height */
+  return bl + (n->color == RB_BLACK);
+}
+static void inv_walk(const rb_tree_t *t, uint64_t k, int fuel) {
+  const rb_node_t *root = t->root != NULL ? t->root : NIL;
+  w_bad = 0; w_cnt = 0; w_seen = 0; w_k = k; w_val.ui = 0; w_node = NULL;
+  if (root != NIL && root->color != RB_BLACK) w_bad |= 64;          /* root black */
+  (void)inv_rec(root, NIL, 0, 0, 0, 0, 0, fuel);
+}
+static int sentinel_clean(void) {
+  return NIL == &sentinel && sentinel.color == RB_BLACK && sentinel.parent == NULL && sentinel.left == NULL && sentinel.right == NULL &&
+         sentinel.key.ui == 0 && sentinel.val.ui == 0;
+}
+#define CHECK_INV(t, fn) do { \
+  CHECK(w_bad == 0, fn ": the result is a red-black tree (search order, root black, no red-red, equal black height, parent links)"); \
+  CHECK(w_cnt == (t)->size, fn ": size equals the number of nodes"); \
+  CHECK(sentinel_clean(), fn ": the NIL sentinel is untouched"); } while (0)
+
+#ifndef RBT_ENUM
+/* ======================================================================================================= (S) symbolic */
 static void mk_tree(rb_tree_t *t, int ptrkeys) {
   int i, ok = 1, bh[NP];
   uint64_t mn[NP], mx[NP];
   size_t cnt = 0;
-  g_ptrkeys = ptrkeys; g_badarg = 0; g_frees = 0; g_last_freed = NULL;
+  g_ptrkeys = ptrkeys; g_badarg = 0; g_frees = 0; g_last_freed = NULL; w_rec = 0;
   for (i = 0; i < NP; i++) {
     sk[i] = malloc(sizeof(rb_node_t)); __CPROVER_assume(sk[i] != NULL);
     pres[i] = (nondet_int() != 0);
@@ -79,7 +139,7 @@ static void mk_tree(rb_tree_t *t, int ptrkeys) {
     n->left = (l < NP && pres[l]) ? sk[l] : NIL;
     n->right = (r < NP && pres[r]) ? sk[r] : NIL;
   }
-  /* representation invariant, bottom-up over the skeleton (bh of NIL = 0) */
+  /* representation invariant, bottom-up over the skeleton (black height of NIL = 0) */
   for (i = NP - 1; i >= 0; i--) {
     int l = 2 * i + 1, r = 2 * i + 2;
     int lp = (l < NP && pres[l]), rp = (r < NP && pres[r]);
@@ -102,46 +162,41 @@ static void mk_tree(rb_tree_t *t, int ptrkeys) {
   if (ptrkeys) { t->compare = item_cmp; t->arg = nondet_int() ? (void *)&g_argobj : NULL; g_arg_expect = t->arg; }
   else { t->compare = rb_set64_compare; t->arg = NULL; }
 }
-/* abstract view of the pre-state: is k a member, which value / position does it have */
+/* abstract view of the pre-state: is k a member, at which position */
 static int sk_member(uint64_t k) { int i, r = 0; for (i = 0; i < NP; i++) if (pres[i] && key0[i] == k) r = 1; return r; }
-static int sk_pos(uint64_t k) { int i, r = -1; for (i = 0; i < NP; i++) if (pres[i] && key0[i] == k) r = i; return r; }
+static int sk_pos(uint64_t k) { int i, r = 0; for (i = 0; i < NP; i++) if (pres[i] && key0[i] == k) r = i; return r; }
 static int sk_height(void) { int i, h = 0; for (i = 0; i < NP; i++) if (pres[i]) { int d = i >= 15 ? 5 : i >= 7 ? 4 : i >= 3 ? 3 : i >= 1 ? 2 : 1; if (d > h) h = d; } return h; }
+/* an arbitrary skeleton node (ghost index j) is bit-for-bit what mk_tree made it */
+static int sk_same(int j, const rb_tree_t *t, const rb_node_t *root0) {
+  int l = 2 * j + 1, r = 2 * j + 2; const rb_node_t *n = sk[j];
+  return t->root == root0 && (g_ptrkeys ? n->key.ptr == (void *)&items[j] : n->key.ui == key0[j]) && n->val.ui == val0[j].ui && n->color == col0[j] &&
+         n->parent == (j == 0 ? NIL : sk[(j - 1) / 2]) &&
+         n->left == ((l < NP && pres[l]) ? sk[l] : NIL) && n->right == ((r < NP && pres[r]) ? sk[r] : NIL);
+}
 
-/* ---- independent walk of the post-state */
-static int w_bad; static size_t w_cnt; static unsigned w_seen; static uint64_t w_k; static rb_val_t w_val; static const rb_node_t *w_node;
-static int w_skel;   /* number of visited nodes that are skeleton nodes (copy independence) */
-static int inv_rec(const rb_node_t *n, const rb_node_t *parent, int lo_set, uint64_t lo, int hi_set, uint64_t hi, int parent_red, int fuel) {
-  int bl, br; uint64_t k;
-  if (n == NIL) return 0;
-  if (n == NULL || fuel == 0) { w_bad |= 1; return 0; }          /* dangling link / deeper than any red-black tree of this size */
-  k = KEYOF(n);
-  if (n->parent != parent) w_bad |= 2;                              /* parent pointers consistent */
-  if (n->color != RB_BLACK && n->color != RB_RED) w_bad |= 4;
-  if (parent_red && n->color == RB_RED) w_bad |= 8;                 /* no red node with a red child */
-  if ((lo_set && !(lo < k)) || (hi_set && !(k < hi))) w_bad |= 16;  /* strict search-tree order */
-  w_cnt++;
-  if (k == w_k) { w_seen++; w_val = n->val; w_node = n; }
-  bl = inv_rec(n->left, n, lo_set, lo, 1, k, n->color == RB_RED, fuel - 1);
-  br = inv_rec(n->right, n, 1, k, hi_set, hi, n->color == RB_RED, fuel - 1);
-  if (bl != br) w_bad |= 32;                                        /* equal black height */
-  return bl + (n->color == RB_BLACK);
+/* ---------------------------------------------------------------- rbt.init : both empty encodings, then the first insertion */
+void h_init(void) {
+  rb_tree_t t; rb_set64_t s = RB_SET64_INIT; rb_iter_t it; IN_U64(in_k); IN_U64(in_x); int r;
+  g_ptrkeys = 0; w_rec = 0; g_frees = 0;
+  t.root = NULL; t.size = 77; t.compare = NULL; t.arg = &t;
+  rb_tree_init(&t, rb_set64_compare, &g_argobj);
+  CHECK((t.root == NIL || t.root == NULL) && t.size == 0 && t.compare == rb_set64_compare && t.arg == (void *)&g_argobj, "tree_init: empty tree (root NIL; NULL would mean the same), comparator and argument stored");
+  CHECK(s.root == NULL && s.size == 0 && s.compare == rb_set64_compare, "RB_SET64_INIT: the static initialiser (root NULL)");
+  CHECK(!rb_set64_has(&t, in_k) && !rb_set64_has(&s, in_k), "empty set: has nothing");
+  CHECK(!rb_set64_del(&t, in_k) && !rb_set64_del(&s, in_k) && t.size == 0 && s.size == 0, "empty set: del removes nothing");
+  rb_iter_start(&it, &s);
+  CHECK(!rb_iter_valid(&it), "empty set: iteration is over at once");
+  rb_iter_init(&it, &t); rb_iter_seek(&it, rb_ui(in_k));
+  CHECK(!rb_iter_valid(&it), "empty set: seek finds nothing");
+  r = nondet_int() ? rb_set64_put(&t, in_x) : rb_set64_put(&s, in_x);
+  CHECK(r == 1, "first put: new");
+  inv_walk(&t, in_k, 2); CHECK_INV(&t, "init/put");
+  inv_walk(&s, in_k, 2); CHECK_INV(&s, "init/put");
+  CHECK(t.size + s.size == 1 && rb_set64_has(&t, in_k) + rb_set64_has(&s, in_k) == (in_k == in_x), "first put: exactly that key is a member of exactly that set");
+  CANARY();
 }
-static void inv_walk(const rb_tree_t *t, uint64_t k, int fuel) {
-  const rb_node_t *root = t->root != NULL ? t->root : NIL;
-  w_bad = 0; w_cnt = 0; w_seen = 0; w_k = k; w_val.ui = 0; w_node = NULL;
-  if (root != NIL && root->color != RB_BLACK) w_bad |= 64;          /* root black */
-  (void)inv_rec(root, NIL, 0, 0, 0, 0, 0, fuel);
-}
-static int sentinel_clean(void) {
-  return NIL == &sentinel && sentinel.color == RB_BLACK && sentinel.parent == NULL && sentinel.left == NULL && sentinel.right == NULL &&
-         sentinel.key.ui == 0 && sentinel.val.ui == 0;
-}
-#define CHECK_INV(t, fn) do { \
-  CHECK(w_bad == 0, fn ": the result is a red-black tree (search order, root black, no red-red, equal black height, parent links)"); \
-  CHECK(w_cnt == (t)->size, fn ": size equals the number of nodes"); \
-  CHECK(sentinel_clean(), fn ": the NIL sentinel is untouched"); } while (0)
 
-/* ================================================================ rbt.has : lookup == abstract membership, nothing changes */
+/* ---------------------------------------------------------------- rbt.has : lookup == abstract membership, nothing changes */
 void h_has(void) {
   rb_tree_t t; IN_U64(in_k); int m, r, p; rb_node_t *g; rb_node_t *root0; size_t n0;
   mk_tree(&t, 0); m = sk_member(in_k); p = sk_pos(in_k); root0 = t.root; n0 = t.size;
@@ -152,11 +207,10 @@ void h_has(void) {
   inv_walk(&t, in_k, RBT_D + 1);
   CHECK_INV(&t, "has");
   CHECK(t.root == root0 && t.size == n0 && w_seen == (unsigned)m, "has: the tree is not modified");
-  if (sk_height() == RBT_D && m && p >= NP / 2) CANARY();   /* coverage: a member on the deepest level is looked up */
   CANARY();
 }
 
-/* ================================================================ rbt.put */
+/* ---------------------------------------------------------------- rbt.put (set64) */
 void h_put(void) {
   rb_tree_t t; IN_U64(in_x); IN_U64(in_k); IN_INT(in_j);
   int was, kwas, kp, r, h0; size_t n0; rb_node_t *root0;
@@ -172,24 +226,14 @@ void h_put(void) {
   if (kwas) CHECK(w_node == sk[kp] && w_val.ui == val0[kp].ui, "put: members keep their node and their value");
   if (!was && in_k == in_x) CHECK(w_val.ui == 0, "put: a new node starts with a zero value");
   CHECK(g_frees == 0, "put: releases nothing");
-  if (was) {
-    /* nothing at all changes: an arbitrary skeleton node (ghost index) is bit-for-bit the same */
-    ASSUME(in_j >= 0 && in_j < NP);
-    if (pres[in_j]) {
-      int l = 2 * in_j + 1, rr = 2 * in_j + 2; const rb_node_t *n = sk[in_j];
-      CHECK(t.root == root0 && n->key.ui == key0[in_j] && n->val.ui == val0[in_j].ui && n->color == col0[in_j] &&
-            n->parent == (in_j == 0 ? NIL : sk[(in_j - 1) / 2]) &&
-            n->left == ((l < NP && pres[l]) ? sk[l] : NIL) && n->right == ((rr < NP && pres[rr]) ? sk[rr] : NIL),
-            "put of a member: the tree is left exactly as it was");
-    }
-  }
-  if (!was && h0 == RBT_D && t.root != root0 && root0 != NULL && root0 != NIL) CANARY();  /* coverage: insertion into a full-height tree that rotates at the root */
+  ASSUME(in_j >= 0 && in_j < NP);
+  if (was && pres[in_j]) CHECK(sk_same(in_j, &t, root0), "put of a member: the tree is left exactly as it was");
   CANARY();
 }
 
-/* ================================================================ rbt.del */
+/* ---------------------------------------------------------------- rbt.del (set64) */
 void h_del(void) {
-  rb_tree_t t; IN_U64(in_x); IN_U64(in_k);
+  rb_tree_t t; IN_U64(in_x); IN_U64(in_k); IN_INT(in_j);
   int was, kwas, kp, xp, r, h0; size_t n0; rb_node_t *root0;
   mk_tree(&t, 0);
   was = sk_member(in_x); xp = sk_pos(in_x); kwas = sk_member(in_k); kp = sk_pos(in_k); n0 = t.size; root0 = t.root; h0 = sk_height();
@@ -205,14 +249,14 @@ void h_del(void) {
   if (was) {
     int l = 2 * xp + 1, rr = 2 * xp + 2;
     /* the released node is the key's own node, or (two children) the node of its in-order successor whose key moved up */
-    CHECK(g_last_freed == (void *)sk[xp] || (l < NP && pres[l] && rr < NP && pres[rr]), "del: the released node is the key's node unless it has two children");
+    CHECK(g_last_freed == (void *)sk[xp] || (l < NP && pres[l] && rr < NP && pres[rr]), "del: the released node is the key's node unless that has two children");
   }
-  if (was && h0 == RBT_D && t.root != root0) CANARY();       /* coverage: removal from a full-height tree that changes the root */
-  if (was && xp == 0 && h0 == RBT_D) CANARY();               /* coverage: removal of a root with two subtrees */
+  ASSUME(in_j >= 0 && in_j < NP);
+  if (!was && pres[in_j]) CHECK(sk_same(in_j, &t, root0), "del of a non-member: the tree is left exactly as it was");
   CANARY();
 }
 
-/* ================================================================ rbt.iter : first / last / seek / next / prev on an arbitrary tree */
+/* ---------------------------------------------------------------- rbt.iter : first / last / seek / next / prev on an arbitrary tree */
 void h_iter(void) {
   rb_tree_t t; rb_iter_t it; IN_U64(in_k); IN_INT(in_j);
   int i, imin = -1, imax = -1, ilb = -1, isucc = -1, ipred = -1;
@@ -244,7 +288,6 @@ void h_iter(void) {
     rb_iter_seek(&it, rb_ui(key0[in_j]));
     rb_iter_prev(&it);
     CHECK(it.node == (ipred < 0 ? NIL : sk[ipred]), "iter_prev: the greatest member smaller than the current one, invalid before the smallest");
-    if (in_j >= NP / 2 && isucc == 0) CANARY();   /* coverage: next climbs from the deepest level to the root */
   }
   rb_iter_start(&it, &t);
   CHECK(it.node == (imin < 0 ? NIL : sk[imin]) && it.tree == &t, "iter_start: init + first");
@@ -252,3 +295,384 @@ void h_iter(void) {
   CHECK_INV(&t, "iter");
   CANARY();
 }
+
+/* ---------------------------------------------------------------- rbt.set.put / rbt.set.del : pointer items + comparator */
+void h_set_put(void) {
+  rb_tree_t t; IN_U64(in_x); IN_U64(in_k); IN_INT(in_j); int was, kwas, kp, r; size_t n0; rb_node_t *root0; item_t probe;
+  mk_tree(&t, 1);
+  was = sk_member(in_x); kwas = sk_member(in_k); kp = sk_pos(in_k); n0 = t.size; root0 = t.root;
+  items[NP].num = in_x; probe.num = in_k;
+  r = rb_set_put(&t, &items[NP]);
+  CHECK(r == !was, "set_put: returns 1 iff no item comparing equal was a member");
+  CHECK(!g_badarg, "set_put: the comparator gets tree->arg");
+  inv_walk(&t, in_k, RBT_D + 2);
+  CHECK_INV(&t, "set_put");
+  CHECK(t.size == n0 + (was ? 0 : 1), "set_put: size grows by one exactly when the item is new");
+  CHECK(w_seen == (unsigned)(in_k == in_x || kwas), "set_put: afterwards k is a member iff k == x or k was a member");
+  CHECK(rb_set_has(&t, &probe) == (in_k == in_x || kwas) && !g_badarg, "set_put: set_has agrees");
+  if (kwas) CHECK(w_node == sk[kp] && w_node->key.ptr == (void *)&items[kp], "set_put: members keep their item pointer (an equal new item does not replace the old one)");
+  if (!was && in_k == in_x) CHECK(w_node->key.ptr == (void *)&items[NP], "set_put: the new member is the item passed in");
+  ASSUME(in_j >= 0 && in_j < NP);
+  if (was && pres[in_j]) CHECK(sk_same(in_j, &t, root0), "set_put of a member: the tree is left exactly as it was");
+  CANARY();
+}
+void h_set_del(void) {
+  rb_tree_t t; IN_U64(in_x); IN_U64(in_k); int was, kwas, kp, xp; size_t n0; void *r; item_t probe, probe_k;
+  mk_tree(&t, 1);
+  was = sk_member(in_x); xp = sk_pos(in_x); kwas = sk_member(in_k); kp = sk_pos(in_k); n0 = t.size;
+  probe.num = in_x; probe_k.num = in_k;
+  r = rb_set_del(&t, &probe);
+  CHECK(r == (was ? (void *)&items[xp] : NULL), "set_del: returns the STORED item that compares equal (the caller releases it), NULL if there is none");
+  CHECK(!g_badarg, "set_del: the comparator gets tree->arg");
+  inv_walk(&t, in_k, RBT_D + 1);
+  CHECK_INV(&t, "set_del");
+  CHECK(t.size == n0 - (was ? 1 : 0) && g_frees == (unsigned)was, "set_del: size and released nodes");
+  CHECK(w_seen == (unsigned)(in_k != in_x && kwas), "set_del: afterwards k is a member iff k != x and k was a member");
+  CHECK(rb_set_has(&t, &probe_k) == (in_k != in_x && kwas), "set_del: set_has agrees");
+  if (kwas && in_k != in_x) CHECK(w_node->key.ptr == (void *)&items[kp] && w_val.ui == val0[kp].ui, "set_del: the other members keep their item pointer and value");
+  CANARY();
+}
+
+/* ---------------------------------------------------------------- rbt.map.put / rbt.map.del */
+void h_map_put(void) {
+  rb_tree_t t; IN_U64(in_x); IN_U64(in_k); int was, kwas, kp, xp, r; char vobj; void *v = nondet_int() ? (void *)&vobj : NULL; item_t probe;
+  mk_tree(&t, 1);
+  was = sk_member(in_x); xp = sk_pos(in_x); kwas = sk_member(in_k); kp = sk_pos(in_k);
+  items[NP].num = in_x; probe.num = in_k;
+  r = rb_map_put(&t, &items[NP], v);
+  CHECK(r == !was, "map_put: returns 1 iff the key is new");
+  inv_walk(&t, in_k, RBT_D + 2);
+  CHECK_INV(&t, "map_put");
+  CHECK(w_seen == (unsigned)(in_k == in_x || kwas), "map_put: key set afterwards");
+  if (kwas) CHECK(w_val.ui == val0[kp].ui, "map_put: existing keys keep their value - an existing key is NOT overwritten (returns 0)");
+  if (!was && in_k == in_x) CHECK(w_val.ptr == v && w_node->key.ptr == (void *)&items[NP], "map_put: a new key is stored with the value passed in");
+  CHECK(rb_map_has(&t, &probe) == (in_k == in_x || kwas), "map_has agrees");
+  if (kwas) CHECK(rb_map_get(&t, &probe) == val0[kp].ptr, "map_get: the stored value");
+  if (!kwas && in_k != in_x) CHECK(rb_map_get(&t, &probe) == NULL, "map_get: NULL for a missing key");
+  (void)xp;
+  CANARY();
+}
+void h_map_del(void) {
+  rb_tree_t t; IN_U64(in_x); IN_U64(in_k); int was, kwas, kp, xp, r; rb_entry_t e; item_t probe, probe_k; int with = nondet_int();
+  mk_tree(&t, 1);
+  was = sk_member(in_x); xp = sk_pos(in_x); kwas = sk_member(in_k); kp = sk_pos(in_k);
+  probe.num = in_x; probe_k.num = in_k; e.key = &e; e.val = &e;
+  r = rb_map_del(&t, &probe, with ? &e : NULL);
+  CHECK(r == was, "map_del: returns 1 iff the key was present");
+  if (was && with) CHECK(e.key == (void *)&items[xp] && e.val == val0[xp].ptr, "map_del: hands back the stored key and its value");
+  if (!was || !with) CHECK(e.key == (void *)&e && e.val == (void *)&e, "map_del: result untouched otherwise");
+  inv_walk(&t, in_k, RBT_D + 1);
+  CHECK_INV(&t, "map_del");
+  CHECK(w_seen == (unsigned)(in_k != in_x && kwas) && g_frees == (unsigned)was, "map_del: key set afterwards, one node released");
+  if (kwas && in_k != in_x) CHECK(w_val.ui == val0[kp].ui && rb_map_get(&t, &probe_k) == val0[kp].ptr, "map_del: the other keys keep their value");
+  CANARY();
+}
+
+/* ---------------------------------------------------------------- rbt.copy : copy, then clear one of the two */
+static unsigned g_copy_calls, g_clear_calls, g_clear_k; static int g_cb_bad;
+static void cb_copy(rb_node_t *z, const rb_node_t *x) { g_copy_calls++; if (z == x || z->key.ui != x->key.ui || z->val.ui != x->val.ui) g_cb_bad = 1; }
+static void cb_clear(rb_node_t *n) { g_clear_calls++; if (n->key.ui == w_k) g_clear_k++; }
+void h_copy(void) {
+  rb_tree_t x, z, *dead, *live; IN_U64(in_k); IN_INT(in_which); int m, kp, use_cb = nondet_int(); size_t n0;
+  mk_tree(&x, 0); m = sk_member(in_k); kp = sk_pos(in_k); n0 = x.size;
+  rb_set64_init(&z);
+  g_copy_calls = 0; g_clear_calls = 0; g_clear_k = 0; g_cb_bad = 0;
+  rb_tree_copy(&z, &x, use_cb ? cb_copy : NULL);
+  CHECK(z.size == n0 && z.compare == x.compare && z.arg == x.arg && x.size == n0, "tree_copy: same size, comparator, argument; source unchanged");
+  CHECK(g_copy_calls == (use_cb ? n0 : 0) && !g_cb_bad, "tree_copy: the copy callback runs once per node, on (new node, old node) with equal key and value");
+  inv_walk(&z, in_k, RBT_D + 1);
+  CHECK_INV(&z, "copy");
+  CHECK(w_seen == (unsigned)m && (!m || (w_val.ui == val0[kp].ui && w_node != sk[kp])), "tree_copy: the copy has exactly the members (and values) of the source, in nodes of its own");
+  /* independence: the real clear of either tree leaves the other one intact (a shared node would be a use after free) */
+  if (in_which) { dead = &x; live = &z; } else { dead = &z; live = &x; }
+  w_k = in_k; g_frees = 0;
+  rb_tree_clear(dead, cb_clear);
+  CHECK((dead->root == NIL || dead->root == NULL) && dead->size == 0, "tree_clear: empty afterwards");
+  CHECK(g_clear_calls == n0 && g_clear_k == (unsigned)m && g_frees == n0, "tree_clear: the callback runs once per member (once for k iff k is a member), every node is released once");
+  CHECK(!rb_set64_has(dead, in_k), "tree_clear: has nothing");
+  inv_walk(live, in_k, RBT_D + 1);
+  CHECK_INV(live, "copy/clear");
+  CHECK(w_seen == (unsigned)m && (!m || w_val.ui == val0[kp].ui) && live->size == n0, "clearing one of the two trees leaves the other with all its members");
+  CHECK(rb_set64_has(live, in_k) == m, "copy/clear: set64_has agrees");
+  CANARY();
+}
+
+#else
+/* ==================================================================================================== (E) exhaustive */
+/* every red-black tree of height <= 4 as {present mask, red mask} over the 15 heap-indexed positions, sorted by node count */
+static const unsigned short RBT_TAB[][2] = {
+  {0x0000,0x0000},{0x0001,0x0000},{0x0003,0x0002},{0x0005,0x0004},{0x0007,0x0000},{0x0007,0x0006},{0x000f,0x0008},{0x0017,0x0010},{0x0027,0x0020},{0x0047,0x0040},
+  {0x001f,0x0002},{0x001f,0x0018},{0x002f,0x0028},{0x0037,0x0030},{0x004f,0x0048},{0x0057,0x0050},{0x0067,0x0004},{0x0067,0x0060},{0x003f,0x0022},{0x003f,0x0038},
+  {0x005f,0x0042},{0x005f,0x0058},{0x006f,0x000c},{0x006f,0x0068},{0x0077,0x0014},{0x0077,0x0070},{0x009f,0x0082},{0x011f,0x0102},{0x021f,0x0202},{0x041f,0x0402},
+  {0x0867,0x0804},{0x1067,0x1004},{0x2067,0x2004},{0x4067,0x4004},{0x007f,0x0000},{0x007f,0x0006},{0x007f,0x001c},{0x007f,0x0062},{0x007f,0x0078},{0x00bf,0x00a2},
+  {0x00df,0x00c2},{0x013f,0x0122},{0x015f,0x0142},{0x019f,0x0182},{0x023f,0x0222},{0x025f,0x0242},{0x029f,0x0282},{0x031f,0x0302},{0x043f,0x0422},{0x045f,0x0442},
+  {0x049f,0x0482},{0x051f,0x0502},{0x061f,0x0602},{0x086f,0x080c},{0x0877,0x0814},{0x106f,0x100c},{0x1077,0x1014},{0x1867,0x1804},{0x206f,0x200c},{0x2077,0x2014},
+  {0x2867,0x2804},{0x3067,0x3004},{0x406f,0x400c},{0x4077,0x4014},{0x4867,0x4804},{0x5067,0x5004},{0x6067,0x6004},{0x00ff,0x0080},{0x00ff,0x0086},{0x00ff,0x00e2},
+  {0x017f,0x0100},{0x017f,0x0106},{0x017f,0x0162},{0x01bf,0x01a2},{0x01df,0x01c2},{0x027f,0x0200},{0x027f,0x0206},{0x027f,0x0262},{0x02bf,0x02a2},{0x02df,0x02c2},
+  {0x033f,0x0322},{0x035f,0x0342},{0x039f,0x0382},{0x047f,0x0400},{0x047f,0x0406},{0x047f,0x0462},{0x04bf,0x04a2},{0x04df,0x04c2},{0x053f,0x0522},{0x055f,0x0542},
+  {0x059f,0x0582},{0x063f,0x0622},{0x065f,0x0642},{0x069f,0x0682},{0x071f,0x0702},{0x087f,0x0800},{0x087f,0x0806},{0x087f,0x081c},{0x107f,0x1000},{0x107f,0x1006},
+  {0x107f,0x101c},{0x186f,0x180c},{0x1877,0x1814},{0x207f,0x2000},{0x207f,0x2006},{0x207f,0x201c},{0x286f,0x280c},{0x2877,0x2814},{0x306f,0x300c},{0x3077,0x3014},
+  {0x3867,0x3804},{0x407f,0x4000},{0x407f,0x4006},{0x407f,0x401c},{0x486f,0x480c},{0x4877,0x4814},{0x506f,0x500c},{0x5077,0x5014},{0x5867,0x5804},{0x606f,0x600c},
+  {0x6077,0x6014},{0x6867,0x6804},{0x7067,0x7004},{0x01ff,0x0008},{0x01ff,0x0180},{0x01ff,0x0186},{0x01ff,0x01e2},{0x02ff,0x0280},{0x02ff,0x0286},{0x02ff,0x02e2},
+  {0x037f,0x0300},{0x037f,0x0306},{0x037f,0x0362},{0x03bf,0x03a2},{0x03df,0x03c2},{0x04ff,0x0480},{0x04ff,0x0486},{0x04ff,0x04e2},{0x057f,0x0500},{0x057f,0x0506},
+  {0x057f,0x0562},{0x05bf,0x05a2},{0x05df,0x05c2},{0x067f,0x0010},{0x067f,0x0600},{0x067f,0x0606},{0x067f,0x0662},{0x06bf,0x06a2},{0x06df,0x06c2},{0x073f,0x0722},
+  {0x075f,0x0742},{0x079f,0x0782},{0x08ff,0x0880},{0x08ff,0x0886},{0x097f,0x0900},{0x097f,0x0906},{0x0a7f,0x0a00},{0x0a7f,0x0a06},{0x0c7f,0x0c00},{0x0c7f,0x0c06},
+  {0x10ff,0x1080},{0x10ff,0x1086},{0x117f,0x1100},{0x117f,0x1106},{0x127f,0x1200},{0x127f,0x1206},{0x147f,0x1400},{0x147f,0x1406},{0x187f,0x0020},{0x187f,0x1800},
+  {0x187f,0x1806},{0x187f,0x181c},{0x20ff,0x2080},{0x20ff,0x2086},{0x217f,0x2100},{0x217f,0x2106},{0x227f,0x2200},{0x227f,0x2206},{0x247f,0x2400},{0x247f,0x2406},
+  {0x287f,0x2800},{0x287f,0x2806},{0x287f,0x281c},{0x307f,0x3000},{0x307f,0x3006},{0x307f,0x301c},{0x386f,0x380c},{0x3877,0x3814},{0x40ff,0x4080},{0x40ff,0x4086},
+  {0x417f,0x4100},{0x417f,0x4106},{0x427f,0x4200},{0x427f,0x4206},{0x447f,0x4400},{0x447f,0x4406},{0x487f,0x4800},{0x487f,0x4806},{0x487f,0x481c},{0x507f,0x5000},
+  {0x507f,0x5006},{0x507f,0x501c},{0x586f,0x580c},{0x5877,0x5814},{0x607f,0x0040},{0x607f,0x6000},{0x607f,0x6006},{0x607f,0x601c},{0x686f,0x680c},{0x6877,0x6814},
+  {0x706f,0x700c},{0x7077,0x7014},{0x7867,0x7804},{0x03ff,0x0208},{0x03ff,0x0380},{0x03ff,0x0386},{0x03ff,0x03e2},{0x05ff,0x0408},{0x05ff,0x0580},{0x05ff,0x0586},
+  {0x05ff,0x05e2},{0x06ff,0x0090},{0x06ff,0x0680},{0x06ff,0x0686},{0x06ff,0x06e2},{0x077f,0x0110},{0x077f,0x0700},{0x077f,0x0706},{0x077f,0x0762},{0x07bf,0x07a2},
+  {0x07df,0x07c2},{0x09ff,0x0808},{0x09ff,0x0980},{0x09ff,0x0986},{0x0aff,0x0a80},{0x0aff,0x0a86},{0x0b7f,0x0b00},{0x0b7f,0x0b06},{0x0cff,0x0c80},{0x0cff,0x0c86},
+  {0x0d7f,0x0d00},{0x0d7f,0x0d06},{0x0e7f,0x0810},{0x0e7f,0x0e00},{0x0e7f,0x0e06},{0x11ff,0x1008},{0x11ff,0x1180},{0x11ff,0x1186},{0x12ff,0x1280},{0x12ff,0x1286},
+  {0x137f,0x1300},{0x137f,0x1306},{0x14ff,0x1480},{0x14ff,0x1486},{0x157f,0x1500},{0x157f,0x1506},{0x167f,0x1010},{0x167f,0x1600},{0x167f,0x1606},{0x18ff,0x00a0},
+  {0x18ff,0x1880},{0x18ff,0x1886},{0x197f,0x0120},{0x197f,0x1900},{0x197f,0x1906},{0x1a7f,0x0220},{0x1a7f,0x1a00},{0x1a7f,0x1a06},{0x1c7f,0x0420},{0x1c7f,0x1c00},
+  {0x1c7f,0x1c06},{0x21ff,0x2008},{0x21ff,0x2180},{0x21ff,0x2186},{0x22ff,0x2280},{0x22ff,0x2286},{0x237f,0x2300},{0x237f,0x2306},{0x24ff,0x2480},{0x24ff,0x2486},
+  {0x257f,0x2500},{0x257f,0x2506},{0x267f,0x2010},{0x267f,0x2600},{0x267f,0x2606},{0x28ff,0x2880},{0x28ff,0x2886},{0x297f,0x2900},{0x297f,0x2906},{0x2a7f,0x2a00},
+  {0x2a7f,0x2a06},{0x2c7f,0x2c00},{0x2c7f,0x2c06},{0x30ff,0x3080},{0x30ff,0x3086},{0x317f,0x3100},{0x317f,0x3106},{0x327f,0x3200},{0x327f,0x3206},{0x347f,0x3400},
+  {0x347f,0x3406},{0x387f,0x2020},{0x387f,0x3800},{0x387f,0x3806},{0x387f,0x381c},{0x41ff,0x4008},{0x41ff,0x4180},{0x41ff,0x4186},{0x42ff,0x4280},{0x42ff,0x4286},
+  {0x437f,0x4300},{0x437f,0x4306},{0x44ff,0x4480},{0x44ff,0x4486},{0x457f,0x4500},{0x457f,0x4506},{0x467f,0x4010},{0x467f,0x4600},{0x467f,0x4606},{0x48ff,0x4880},
+  {0x48ff,0x4886},{0x497f,0x4900},{0x497f,0x4906},{0x4a7f,0x4a00},{0x4a7f,0x4a06},{0x4c7f,0x4c00},{0x4c7f,0x4c06},{0x50ff,0x5080},{0x50ff,0x5086},{0x517f,0x5100},
+  {0x517f,0x5106},{0x527f,0x5200},{0x527f,0x5206},{0x547f,0x5400},{0x547f,0x5406},{0x587f,0x4020},{0x587f,0x5800},{0x587f,0x5806},{0x587f,0x581c},{0x60ff,0x00c0},
+  {0x60ff,0x6080},{0x60ff,0x6086},{0x617f,0x0140},{0x617f,0x6100},{0x617f,0x6106},{0x627f,0x0240},{0x627f,0x6200},{0x627f,0x6206},{0x647f,0x0440},{0x647f,0x6400},
+  {0x647f,0x6406},{0x687f,0x0840},{0x687f,0x6800},{0x687f,0x6806},{0x687f,0x681c},{0x707f,0x1040},{0x707f,0x7000},{0x707f,0x7006},{0x707f,0x701c},{0x786f,0x780c},
+  {0x7877,0x7814},{0x07ff,0x0002},{0x07ff,0x0018},{0x07ff,0x0190},{0x07ff,0x0608},{0x07ff,0x0780},{0x07ff,0x0786},{0x07ff,0x07e2},{0x0bff,0x0a08},{0x0bff,0x0b80},
+  {0x0bff,0x0b86},{0x0dff,0x0c08},{0x0dff,0x0d80},{0x0dff,0x0d86},{0x0eff,0x0890},{0x0eff,0x0e80},{0x0eff,0x0e86},{0x0f7f,0x0910},{0x0f7f,0x0f00},{0x0f7f,0x0f06},
+  {0x13ff,0x1208},{0x13ff,0x1380},{0x13ff,0x1386},{0x15ff,0x1408},{0x15ff,0x1580},{0x15ff,0x1586},{0x16ff,0x1090},{0x16ff,0x1680},{0x16ff,0x1686},{0x177f,0x1110},
+  {0x177f,0x1700},{0x177f,0x1706},{0x19ff,0x0028},{0x19ff,0x01a0},{0x19ff,0x1808},{0x19ff,0x1980},{0x19ff,0x1986},{0x1aff,0x02a0},{0x1aff,0x1a80},{0x1aff,0x1a86},
+  {0x1b7f,0x0320},{0x1b7f,0x1b00},{0x1b7f,0x1b06},{0x1cff,0x04a0},{0x1cff,0x1c80},{0x1cff,0x1c86},{0x1d7f,0x0520},{0x1d7f,0x1d00},{0x1d7f,0x1d06},{0x1e7f,0x0030},
+  {0x1e7f,0x0620},{0x1e7f,0x1810},{0x1e7f,0x1e00},{0x1e7f,0x1e06},{0x23ff,0x2208},{0x23ff,0x2380},{0x23ff,0x2386},{0x25ff,0x2408},{0x25ff,0x2580},{0x25ff,0x2586},
+  {0x26ff,0x2090},{0x26ff,0x2680},{0x26ff,0x2686},{0x277f,0x2110},{0x277f,0x2700},{0x277f,0x2706},{0x29ff,0x2808},{0x29ff,0x2980},{0x29ff,0x2986},{0x2aff,0x2a80},
+  {0x2aff,0x2a86},{0x2b7f,0x2b00},{0x2b7f,0x2b06},{0x2cff,0x2c80},{0x2cff,0x2c86},{0x2d7f,0x2d00},{0x2d7f,0x2d06},{0x2e7f,0x2810},{0x2e7f,0x2e00},{0x2e7f,0x2e06},
+  {0x31ff,0x3008},{0x31ff,0x3180},{0x31ff,0x3186},{0x32ff,0x3280},{0x32ff,0x3286},{0x337f,0x3300},{0x337f,0x3306},{0x34ff,0x3480},{0x34ff,0x3486},{0x357f,0x3500},
+  {0x357f,0x3506},{0x367f,0x3010},{0x367f,0x3600},{0x367f,0x3606},{0x38ff,0x20a0},{0x38ff,0x3880},{0x38ff,0x3886},{0x397f,0x2120},{0x397f,0x3900},{0x397f,0x3906},
+  {0x3a7f,0x2220},{0x3a7f,0x3a00},{0x3a7f,0x3a06},{0x3c7f,0x2420},{0x3c7f,0x3c00},{0x3c7f,0x3c06},{0x43ff,0x4208},{0x43ff,0x4380},{0x43ff,0x4386},{0x45ff,0x4408},
+  {0x45ff,0x4580},{0x45ff,0x4586},{0x46ff,0x4090},{0x46ff,0x4680},{0x46ff,0x4686},{0x477f,0x4110},{0x477f,0x4700},{0x477f,0x4706},{0x49ff,0x4808},{0x49ff,0x4980},
+  {0x49ff,0x4986},{0x4aff,0x4a80},{0x4aff,0x4a86},{0x4b7f,0x4b00},{0x4b7f,0x4b06},{0x4cff,0x4c80},{0x4cff,0x4c86},{0x4d7f,0x4d00},{0x4d7f,0x4d06},{0x4e7f,0x4810},
+  {0x4e7f,0x4e00},{0x4e7f,0x4e06},{0x51ff,0x5008},{0x51ff,0x5180},{0x51ff,0x5186},{0x52ff,0x5280},{0x52ff,0x5286},{0x537f,0x5300},{0x537f,0x5306},{0x54ff,0x5480},
+  {0x54ff,0x5486},{0x557f,0x5500},{0x557f,0x5506},{0x567f,0x5010},{0x567f,0x5600},{0x567f,0x5606},{0x58ff,0x40a0},{0x58ff,0x5880},{0x58ff,0x5886},{0x597f,0x4120},
+  {0x597f,0x5900},{0x597f,0x5906},{0x5a7f,0x4220},{0x5a7f,0x5a00},{0x5a7f,0x5a06},{0x5c7f,0x4420},{0x5c7f,0x5c00},{0x5c7f,0x5c06},{0x61ff,0x0048},{0x61ff,0x01c0},
+  {0x61ff,0x6008},{0x61ff,0x6180},{0x61ff,0x6186},{0x62ff,0x02c0},{0x62ff,0x6280},{0x62ff,0x6286},{0x637f,0x0340},{0x637f,0x6300},{0x637f,0x6306},{0x64ff,0x04c0},
+  {0x64ff,0x6480},{0x64ff,0x6486},{0x657f,0x0540},{0x657f,0x6500},{0x657f,0x6506},{0x667f,0x0050},{0x667f,0x0640},{0x667f,0x6010},{0x667f,0x6600},{0x667f,0x6606},
+  {0x68ff,0x08c0},{0x68ff,0x6880},{0x68ff,0x6886},{0x697f,0x0940},{0x697f,0x6900},{0x697f,0x6906},{0x6a7f,0x0a40},{0x6a7f,0x6a00},{0x6a7f,0x6a06},{0x6c7f,0x0c40},
+  {0x6c7f,0x6c00},{0x6c7f,0x6c06},{0x70ff,0x10c0},{0x70ff,0x7080},{0x70ff,0x7086},{0x717f,0x1140},{0x717f,0x7100},{0x717f,0x7106},{0x727f,0x1240},{0x727f,0x7200},
+  {0x727f,0x7206},{0x747f,0x1440},{0x747f,0x7400},{0x747f,0x7406},{0x787f,0x0004},{0x787f,0x0060},{0x787f,0x1840},{0x787f,0x6020},{0x787f,0x7800},{0x787f,0x7806},
+  {0x787f,0x781c},{0x0fff,0x0802},{0x0fff,0x0818},{0x0fff,0x0990},{0x0fff,0x0e08},{0x0fff,0x0f80},{0x0fff,0x0f86},{0x17ff,0x1002},{0x17ff,0x1018},{0x17ff,0x1190},
+  {0x17ff,0x1608},{0x17ff,0x1780},{0x17ff,0x1786},{0x1bff,0x0228},{0x1bff,0x03a0},{0x1bff,0x1a08},{0x1bff,0x1b80},{0x1bff,0x1b86},{0x1dff,0x0428},{0x1dff,0x05a0},
+  {0x1dff,0x1c08},{0x1dff,0x1d80},{0x1dff,0x1d86},{0x1eff,0x00b0},{0x1eff,0x06a0},{0x1eff,0x1890},{0x1eff,0x1e80},{0x1eff,0x1e86},{0x1f7f,0x0130},{0x1f7f,0x0720},
+  {0x1f7f,0x1910},{0x1f7f,0x1f00},{0x1f7f,0x1f06},{0x27ff,0x2002},{0x27ff,0x2018},{0x27ff,0x2190},{0x27ff,0x2608},{0x27ff,0x2780},{0x27ff,0x2786},{0x2bff,0x2a08},
+  {0x2bff,0x2b80},{0x2bff,0x2b86},{0x2dff,0x2c08},{0x2dff,0x2d80},{0x2dff,0x2d86},{0x2eff,0x2890},{0x2eff,0x2e80},{0x2eff,0x2e86},{0x2f7f,0x2910},{0x2f7f,0x2f00},
+  {0x2f7f,0x2f06},{0x33ff,0x3208},{0x33ff,0x3380},{0x33ff,0x3386},{0x35ff,0x3408},{0x35ff,0x3580},{0x35ff,0x3586},{0x36ff,0x3090},{0x36ff,0x3680},{0x36ff,0x3686},
+  {0x377f,0x3110},{0x377f,0x3700},{0x377f,0x3706},{0x39ff,0x2028},{0x39ff,0x21a0},{0x39ff,0x3808},{0x39ff,0x3980},{0x39ff,0x3986},{0x3aff,0x22a0},{0x3aff,0x3a80},
+  {0x3aff,0x3a86},{0x3b7f,0x2320},{0x3b7f,0x3b00},{0x3b7f,0x3b06},{0x3cff,0x24a0},{0x3cff,0x3c80},{0x3cff,0x3c86},{0x3d7f,0x2520},{0x3d7f,0x3d00},{0x3d7f,0x3d06},
+  {0x3e7f,0x2030},{0x3e7f,0x2620},{0x3e7f,0x3810},{0x3e7f,0x3e00},{0x3e7f,0x3e06},{0x47ff,0x4002},{0x47ff,0x4018},{0x47ff,0x4190},{0x47ff,0x4608},{0x47ff,0x4780},
+  {0x47ff,0x4786},{0x4bff,0x4a08},{0x4bff,0x4b80},{0x4bff,0x4b86},{0x4dff,0x4c08},{0x4dff,0x4d80},{0x4dff,0x4d86},{0x4eff,0x4890},{0x4eff,0x4e80},{0x4eff,0x4e86},
+  {0x4f7f,0x4910},{0x4f7f,0x4f00},{0x4f7f,0x4f06},{0x53ff,0x5208},{0x53ff,0x5380},{0x53ff,0x5386},{0x55ff,0x5408},{0x55ff,0x5580},{0x55ff,0x5586},{0x56ff,0x5090},
+  {0x56ff,0x5680},{0x56ff,0x5686},{0x577f,0x5110},{0x577f,0x5700},{0x577f,0x5706},{0x59ff,0x4028},{0x59ff,0x41a0},{0x59ff,0x5808},{0x59ff,0x5980},{0x59ff,0x5986},
+  {0x5aff,0x42a0},{0x5aff,0x5a80},{0x5aff,0x5a86},{0x5b7f,0x4320},{0x5b7f,0x5b00},{0x5b7f,0x5b06},{0x5cff,0x44a0},{0x5cff,0x5c80},{0x5cff,0x5c86},{0x5d7f,0x4520},
+  {0x5d7f,0x5d00},{0x5d7f,0x5d06},{0x5e7f,0x4030},{0x5e7f,0x4620},{0x5e7f,0x5810},{0x5e7f,0x5e00},{0x5e7f,0x5e06},{0x63ff,0x0248},{0x63ff,0x03c0},{0x63ff,0x6208},
+  {0x63ff,0x6380},{0x63ff,0x6386},{0x65ff,0x0448},{0x65ff,0x05c0},{0x65ff,0x6408},{0x65ff,0x6580},{0x65ff,0x6586},{0x66ff,0x00d0},{0x66ff,0x06c0},{0x66ff,0x6090},
+  {0x66ff,0x6680},{0x66ff,0x6686},{0x677f,0x0150},{0x677f,0x0740},{0x677f,0x6110},{0x677f,0x6700},{0x677f,0x6706},{0x69ff,0x0848},{0x69ff,0x09c0},{0x69ff,0x6808},
+  {0x69ff,0x6980},{0x69ff,0x6986},{0x6aff,0x0ac0},{0x6aff,0x6a80},{0x6aff,0x6a86},{0x6b7f,0x0b40},{0x6b7f,0x6b00},{0x6b7f,0x6b06},{0x6cff,0x0cc0},{0x6cff,0x6c80},
+  {0x6cff,0x6c86},{0x6d7f,0x0d40},{0x6d7f,0x6d00},{0x6d7f,0x6d06},{0x6e7f,0x0850},{0x6e7f,0x0e40},{0x6e7f,0x6810},{0x6e7f,0x6e00},{0x6e7f,0x6e06},{0x71ff,0x1048},
+  {0x71ff,0x11c0},{0x71ff,0x7008},{0x71ff,0x7180},{0x71ff,0x7186},{0x72ff,0x12c0},{0x72ff,0x7280},{0x72ff,0x7286},{0x737f,0x1340},{0x737f,0x7300},{0x737f,0x7306},
+  {0x74ff,0x14c0},{0x74ff,0x7480},{0x74ff,0x7486},{0x757f,0x1540},{0x757f,0x7500},{0x757f,0x7506},{0x767f,0x1050},{0x767f,0x1640},{0x767f,0x7010},{0x767f,0x7600},
+  {0x767f,0x7606},{0x78ff,0x0084},{0x78ff,0x00e0},{0x78ff,0x18c0},{0x78ff,0x60a0},{0x78ff,0x7880},{0x78ff,0x7886},{0x797f,0x0104},{0x797f,0x0160},{0x797f,0x1940},
+  {0x797f,0x6120},{0x797f,0x7900},{0x797f,0x7906},{0x7a7f,0x0204},{0x7a7f,0x0260},{0x7a7f,0x1a40},{0x7a7f,0x6220},{0x7a7f,0x7a00},{0x7a7f,0x7a06},{0x7c7f,0x0404},
+  {0x7c7f,0x0460},{0x7c7f,0x1c40},{0x7c7f,0x6420},{0x7c7f,0x7c00},{0x7c7f,0x7c06},{0x1fff,0x0022},{0x1fff,0x0038},{0x1fff,0x01b0},{0x1fff,0x0628},{0x1fff,0x07a0},
+  {0x1fff,0x1802},{0x1fff,0x1818},{0x1fff,0x1990},{0x1fff,0x1e08},{0x1fff,0x1f80},{0x1fff,0x1f86},{0x2fff,0x2802},{0x2fff,0x2818},{0x2fff,0x2990},{0x2fff,0x2e08},
+  {0x2fff,0x2f80},{0x2fff,0x2f86},{0x37ff,0x3002},{0x37ff,0x3018},{0x37ff,0x3190},{0x37ff,0x3608},{0x37ff,0x3780},{0x37ff,0x3786},{0x3bff,0x2228},{0x3bff,0x23a0},
+  {0x3bff,0x3a08},{0x3bff,0x3b80},{0x3bff,0x3b86},{0x3dff,0x2428},{0x3dff,0x25a0},{0x3dff,0x3c08},{0x3dff,0x3d80},{0x3dff,0x3d86},{0x3eff,0x20b0},{0x3eff,0x26a0},
+  {0x3eff,0x3890},{0x3eff,0x3e80},{0x3eff,0x3e86},{0x3f7f,0x2130},{0x3f7f,0x2720},{0x3f7f,0x3910},{0x3f7f,0x3f00},{0x3f7f,0x3f06},{0x4fff,0x4802},{0x4fff,0x4818},
+  {0x4fff,0x4990},{0x4fff,0x4e08},{0x4fff,0x4f80},{0x4fff,0x4f86},{0x57ff,0x5002},{0x57ff,0x5018},{0x57ff,0x5190},{0x57ff,0x5608},{0x57ff,0x5780},{0x57ff,0x5786},
+  {0x5bff,0x4228},{0x5bff,0x43a0},{0x5bff,0x5a08},{0x5bff,0x5b80},{0x5bff,0x5b86},{0x5dff,0x4428},{0x5dff,0x45a0},{0x5dff,0x5c08},{0x5dff,0x5d80},{0x5dff,0x5d86},
+  {0x5eff,0x40b0},{0x5eff,0x46a0},{0x5eff,0x5890},{0x5eff,0x5e80},{0x5eff,0x5e86},{0x5f7f,0x4130},{0x5f7f,0x4720},{0x5f7f,0x5910},{0x5f7f,0x5f00},{0x5f7f,0x5f06},
+  {0x67ff,0x0042},{0x67ff,0x0058},{0x67ff,0x01d0},{0x67ff,0x0648},{0x67ff,0x07c0},{0x67ff,0x6002},{0x67ff,0x6018},{0x67ff,0x6190},{0x67ff,0x6608},{0x67ff,0x6780},
+  {0x67ff,0x6786},{0x6bff,0x0a48},{0x6bff,0x0bc0},{0x6bff,0x6a08},{0x6bff,0x6b80},{0x6bff,0x6b86},{0x6dff,0x0c48},{0x6dff,0x0dc0},{0x6dff,0x6c08},{0x6dff,0x6d80},
+  {0x6dff,0x6d86},{0x6eff,0x08d0},{0x6eff,0x0ec0},{0x6eff,0x6890},{0x6eff,0x6e80},{0x6eff,0x6e86},{0x6f7f,0x0950},{0x6f7f,0x0f40},{0x6f7f,0x6910},{0x6f7f,0x6f00},
+  {0x6f7f,0x6f06},{0x73ff,0x1248},{0x73ff,0x13c0},{0x73ff,0x7208},{0x73ff,0x7380},{0x73ff,0x7386},{0x75ff,0x1448},{0x75ff,0x15c0},{0x75ff,0x7408},{0x75ff,0x7580},
+  {0x75ff,0x7586},{0x76ff,0x10d0},{0x76ff,0x16c0},{0x76ff,0x7090},{0x76ff,0x7680},{0x76ff,0x7686},{0x777f,0x1150},{0x777f,0x1740},{0x777f,0x7110},{0x777f,0x7700},
+  {0x777f,0x7706},{0x79ff,0x000c},{0x79ff,0x0068},{0x79ff,0x0184},{0x79ff,0x01e0},{0x79ff,0x1848},{0x79ff,0x19c0},{0x79ff,0x6028},{0x79ff,0x61a0},{0x79ff,0x7808},
+  {0x79ff,0x7980},{0x79ff,0x7986},{0x7aff,0x0284},{0x7aff,0x02e0},{0x7aff,0x1ac0},{0x7aff,0x62a0},{0x7aff,0x7a80},{0x7aff,0x7a86},{0x7b7f,0x0304},{0x7b7f,0x0360},
+  {0x7b7f,0x1b40},{0x7b7f,0x6320},{0x7b7f,0x7b00},{0x7b7f,0x7b06},{0x7cff,0x0484},{0x7cff,0x04e0},{0x7cff,0x1cc0},{0x7cff,0x64a0},{0x7cff,0x7c80},{0x7cff,0x7c86},
+  {0x7d7f,0x0504},{0x7d7f,0x0560},{0x7d7f,0x1d40},{0x7d7f,0x6520},{0x7d7f,0x7d00},{0x7d7f,0x7d06},{0x7e7f,0x0014},{0x7e7f,0x0070},{0x7e7f,0x0604},{0x7e7f,0x0660},
+  {0x7e7f,0x1850},{0x7e7f,0x1e40},{0x7e7f,0x6030},{0x7e7f,0x6620},{0x7e7f,0x7810},{0x7e7f,0x7e00},{0x7e7f,0x7e06},{0x3fff,0x2022},{0x3fff,0x2038},{0x3fff,0x21b0},
+  {0x3fff,0x2628},{0x3fff,0x27a0},{0x3fff,0x3802},{0x3fff,0x3818},{0x3fff,0x3990},{0x3fff,0x3e08},{0x3fff,0x3f80},{0x3fff,0x3f86},{0x5fff,0x4022},{0x5fff,0x4038},
+  {0x5fff,0x41b0},{0x5fff,0x4628},{0x5fff,0x47a0},{0x5fff,0x5802},{0x5fff,0x5818},{0x5fff,0x5990},{0x5fff,0x5e08},{0x5fff,0x5f80},{0x5fff,0x5f86},{0x6fff,0x0842},
+  {0x6fff,0x0858},{0x6fff,0x09d0},{0x6fff,0x0e48},{0x6fff,0x0fc0},{0x6fff,0x6802},{0x6fff,0x6818},{0x6fff,0x6990},{0x6fff,0x6e08},{0x6fff,0x6f80},{0x6fff,0x6f86},
+  {0x77ff,0x1042},{0x77ff,0x1058},{0x77ff,0x11d0},{0x77ff,0x1648},{0x77ff,0x17c0},{0x77ff,0x7002},{0x77ff,0x7018},{0x77ff,0x7190},{0x77ff,0x7608},{0x77ff,0x7780},
+  {0x77ff,0x7786},{0x7bff,0x020c},{0x7bff,0x0268},{0x7bff,0x0384},{0x7bff,0x03e0},{0x7bff,0x1a48},{0x7bff,0x1bc0},{0x7bff,0x6228},{0x7bff,0x63a0},{0x7bff,0x7a08},
+  {0x7bff,0x7b80},{0x7bff,0x7b86},{0x7dff,0x040c},{0x7dff,0x0468},{0x7dff,0x0584},{0x7dff,0x05e0},{0x7dff,0x1c48},{0x7dff,0x1dc0},{0x7dff,0x6428},{0x7dff,0x65a0},
+  {0x7dff,0x7c08},{0x7dff,0x7d80},{0x7dff,0x7d86},{0x7eff,0x0094},{0x7eff,0x00f0},{0x7eff,0x0684},{0x7eff,0x06e0},{0x7eff,0x18d0},{0x7eff,0x1ec0},{0x7eff,0x60b0},
+  {0x7eff,0x66a0},{0x7eff,0x7890},{0x7eff,0x7e80},{0x7eff,0x7e86},{0x7f7f,0x0114},{0x7f7f,0x0170},{0x7f7f,0x0704},{0x7f7f,0x0760},{0x7f7f,0x1950},{0x7f7f,0x1f40},
+  {0x7f7f,0x6130},{0x7f7f,0x6720},{0x7f7f,0x7910},{0x7f7f,0x7f00},{0x7f7f,0x7f06},{0x7fff,0x0000},{0x7fff,0x0006},{0x7fff,0x001c},{0x7fff,0x0062},{0x7fff,0x0078},
+  {0x7fff,0x0194},{0x7fff,0x01f0},{0x7fff,0x060c},{0x7fff,0x0668},{0x7fff,0x0784},{0x7fff,0x07e0},{0x7fff,0x1842},{0x7fff,0x1858},{0x7fff,0x19d0},{0x7fff,0x1e48},
+  {0x7fff,0x1fc0},{0x7fff,0x6022},{0x7fff,0x6038},{0x7fff,0x61b0},{0x7fff,0x6628},{0x7fff,0x67a0},{0x7fff,0x7802},{0x7fff,0x7818},{0x7fff,0x7990},{0x7fff,0x7e08},
+  {0x7fff,0x7f80},{0x7fff,0x7f86},
+};
+#define RBT_NTAB 1082
+/* first table index of the trees with n nodes (n = 0..16) */
+static const unsigned short RBT_FIRST[17] = {0, 1, 2, 4, 6, 10, 18, 34, 67, 123, 213, 361, 571, 795, 967, 1055, 1082};
+
+/* rbt.shapes: the table is complete - ANY pair of masks that describes a red-black tree on the skeleton is listed */
+void h_shapes(void) {
+  IN_U32(in_pm); IN_U32(in_rm); int i, ok = 1, bh[15], found = 0, n = 0;
+  ASSUME(in_pm < 0x8000 && (in_rm & ~in_pm) == 0);
+  for (i = 14; i >= 0; i--) {
+    int l = 2 * i + 1, r = 2 * i + 2;
+    int p = (in_pm >> i) & 1, red = (in_rm >> i) & 1;
+    int lp = l < 15 && ((in_pm >> l) & 1), rp = r < 15 && ((in_pm >> r) & 1);
+    int bl = lp ? bh[l] : 0, br = rp ? bh[r] : 0;
+    bh[i] = 0;
+    if (!p && (lp || rp)) ok = 0;                     /* a present node has a present parent */
+    if (p) {
+      n++;
+      if (bl != br) ok = 0;
+      if (red && ((lp && ((in_rm >> l) & 1)) || (rp && ((in_rm >> r) & 1)))) ok = 0;
+      bh[i] = bl + !red;
+    }
+  }
+  if (in_rm & 1) ok = 0;                              /* root black */
+  ASSUME(ok);
+  for (i = 0; i < RBT_NTAB; i++) if (RBT_TAB[i][0] == in_pm && RBT_TAB[i][1] == in_rm) { found++; CHECK(i >= RBT_FIRST[n] && i < RBT_FIRST[n + 1], "RBT_TAB: sorted by node count, RBT_FIRST is its index"); }
+  CHECK(found == 1, "RBT_TAB lists every red-black tree of height <= 4 exactly once");
+  CANARY();
+}
+
+static int e_n; static int e_next;
+static void e_inorder(int pos) { if (pos >= 15 || !pres[pos]) return; e_inorder(2 * pos + 1); key0[pos] = 2 * (uint64_t)(++e_next); e_inorder(2 * pos + 2); }
+/* decode table entry c: colours, in-order keys 2,4,..,2n, values 3*key+1 */
+static void e_decode(int c) {
+  unsigned pm = RBT_TAB[c][0], rm = RBT_TAB[c][1]; int i;
+  e_n = 0;
+  for (i = 0; i < 15; i++) { pres[i] = (pm >> i) & 1; col0[i] = ((rm >> i) & 1) ? RB_RED : RB_BLACK; sk[i] = &e_pool[i]; e_n += pres[i]; }
+  e_next = 0; e_inorder(0);
+  for (i = 0; i < 15; i++) if (pres[i]) { items[i].num = key0[i]; val0[i].ui = key0[i] * 3 + 1; }
+}
+/* (re)build the decoded tree in the pool */
+static void e_build(rb_tree_t *t) {
+  int i;
+  g_ptrkeys = 1; g_badarg = 0; g_arg_expect = &g_argobj; g_frees = 0; g_mallocs = 0; g_last_freed = NULL; w_rec = 1;
+  for (i = 0; i < 15; i++) if (pres[i]) {
+    int l = 2 * i + 1, r = 2 * i + 2; rb_node_t *nd = &e_pool[i];
+    nd->key.ptr = &items[i]; nd->val = val0[i]; nd->color = col0[i];
+    nd->parent = (i == 0) ? NIL : &e_pool[(i - 1) / 2];
+    nd->left = (l < 15 && pres[l]) ? &e_pool[l] : NIL;
+    nd->right = (r < 15 && pres[r]) ? &e_pool[r] : NIL;
+  }
+  t->root = pres[0] ? &e_pool[0] : NIL; t->size = (size_t)e_n; t->compare = item_cmp; t->arg = &g_argobj;
+}
+#ifndef E_LO
+#define E_LO 0
+#endif
+#ifndef E_HI
+#define E_HI 34
+#endif
+static unsigned e_runs, e_grew, e_rootch;
+
+/* rbt.put.e*: for every tree and every x in 1..2n+1 (odd = a gap or an end, even = a member) */
+void h_put_enum(void) {
+  int c;
+  e_runs = 0; e_grew = 0;
+  for (c = E_LO; c < E_HI; c++) {
+    uint64_t x;
+    e_decode(c);
+    for (x = 1; x <= 2 * (uint64_t)e_n + 1; x++) {
+      rb_tree_t t; int r, i, ok = 1; size_t lt = (size_t)((x - 1) / 2);   /* number of members < x */
+      e_build(&t);
+      items[15].num = x;
+      r = rb_set_put(&t, &items[15]);
+      CHECK(r == (int)(x & 1), "set_put: 1 iff new");
+      inv_walk(&t, x, 6);
+      CHECK(w_bad == 0 && sentinel_clean() && !g_badarg, "put: red-black tree afterwards");
+      CHECK(w_cnt == t.size && t.size == (size_t)e_n + (x & 1) && w_seen == 1, "put: size, x is a member once");
+      for (i = 0; i < 16; i++) if ((size_t)i < w_cnt) {
+        uint64_t want = (x & 1) ? ((size_t)i < lt ? 2 * ((uint64_t)i + 1) : (size_t)i == lt ? x : 2 * (uint64_t)i) : 2 * ((uint64_t)i + 1);
+        if (w_keys[i] != want) ok = 0;
+        if (w_vals[i] != (want == x && (x & 1) ? 0 : want * 3 + 1)) ok = 0;
+      }
+      CHECK(ok, "put: the in-order key sequence is the old one with x inserted in place; every key keeps its value, the new one has 0");
+      CHECK(g_mallocs == (unsigned)(x & 1) && g_frees == 0, "put: allocates one node iff new, releases none");
+      e_runs++; if (t.root != (pres[0] ? &e_pool[0] : NIL)) e_grew++;
+    }
+  }
+  CHECK(e_runs > 0, "put: runs");
+  CHECK(E_LO > 2 || E_HI <= 2 || e_grew > 0, "put: coverage - some insertion replaced the root");
+  CANARY();
+}
+
+/* rbt.del.e*: for every tree and every x in 1..2n+1 (even = a member, odd = not a member) */
+void h_del_enum(void) {
+  int c;
+  e_runs = 0; e_rootch = 0;
+  for (c = E_LO; c < E_HI; c++) {
+    uint64_t x;
+    e_decode(c);
+    for (x = 1; x <= 2 * (uint64_t)e_n + 1; x++) {
+      rb_tree_t t; int i, ok = 1, was = !(x & 1); void *r; item_t probe; size_t m = (size_t)(x / 2);   /* x == 2m */
+      e_build(&t);
+      probe.num = x;
+      r = rb_set_del(&t, &probe);
+      if (was) {
+        int px = -1; for (i = 0; i < 15; i++) if (pres[i] && key0[i] == x) px = i;
+        CHECK(r == (void *)&items[px], "set_del: returns the stored item");
+      } else CHECK(r == NULL, "set_del: NULL for a non-member");
+      inv_walk(&t, x, 5);
+      CHECK(w_bad == 0 && sentinel_clean() && !g_badarg, "del: red-black tree afterwards");
+      CHECK(w_cnt == t.size && t.size == (size_t)e_n - was && w_seen == 0, "del: size, x is not a member");
+      for (i = 0; i < 16; i++) if ((size_t)i < w_cnt) {
+        uint64_t want = (was && (size_t)i + 1 >= m) ? 2 * ((uint64_t)i + 2) : 2 * ((uint64_t)i + 1);
+        if (w_keys[i] != want || w_vals[i] != want * 3 + 1) ok = 0;
+      }
+      CHECK(ok, "del: the in-order key sequence is the old one without x; every key keeps its value");
+      CHECK(g_frees == (unsigned)was && g_mallocs == 0, "del: releases one node iff x was a member");
+      e_runs++; if (t.root != (pres[0] ? &e_pool[0] : NIL)) e_rootch++;
+    }
+  }
+  CHECK(e_runs > 0, "del: runs");
+  CHECK(E_HI <= 1 || e_rootch > 0, "del: coverage - some removal replaced the root");
+  CANARY();
+}
+
+/* rbt.walk.e*: iteration in both directions, seek for every key position, copy and clear */
+static unsigned g_copy_calls, g_clear_calls;
+static void cb_copy(rb_node_t *z, const rb_node_t *x) { g_copy_calls++; (void)z; (void)x; }
+static void cb_clear(rb_node_t *n) { g_clear_calls++; (void)n; }
+void h_walk_enum(void) {
+  int c;
+  e_runs = 0;
+  for (c = E_LO; c < E_HI; c++) {
+    rb_tree_t t, z; rb_iter_t it; uint64_t x; int i, ok = 1; unsigned cnt;
+    e_decode(c); e_build(&t);
+    cnt = 0;
+    rb_tree_each(&t, it) { if (cnt >= 16 || ((const item_t *)rb_key_ptr(it))->num != 2 * ((uint64_t)cnt + 1)) ok = 0; cnt++; if (cnt > 16) break; }
+    CHECK(ok && cnt == (unsigned)e_n, "first..next visits every member exactly once, in ascending order");
+    cnt = 0;
+    rb_iter_backwards(&it) { if (cnt >= 16 || ((const item_t *)rb_key_ptr(it))->num != 2 * ((uint64_t)e_n - cnt)) ok = 0; cnt++; if (cnt > 16) break; }
+    CHECK(ok && cnt == (unsigned)e_n, "last..prev visits every member exactly once, in descending order");
+    for (x = 1; x <= 2 * (uint64_t)e_n + 1; x++) {
+      item_t probe; uint64_t want = x + (x & 1);    /* first member >= x */
+      probe.num = x;
+      rb_iter_seek(&it, rb_ptr(&probe));
+      if (want <= 2 * (uint64_t)e_n) { if (!rb_iter_valid(&it) || ((const item_t *)rb_key_ptr(it))->num != want) ok = 0; }
+      else if (rb_iter_valid(&it)) ok = 0;
+      if (rb_set_has(&t, &probe) != !(x & 1)) ok = 0;
+    }
+    CHECK(ok && !g_badarg, "seek(x) lands on the first member >= x (invalid if none); has(x) exactly for members");
+    g_copy_calls = 0; g_clear_calls = 0;
+    rb_tree_copy(&z, &t, cb_copy);
+    inv_walk(&z, 0, 5);
+    CHECK(w_bad == 0 && w_cnt == (size_t)e_n && z.size == t.size && g_copy_calls == (unsigned)e_n && g_mallocs == (unsigned)e_n, "copy: a red-black tree of the same size in nodes of its own");
+    for (i = 0; i < 16; i++) if ((size_t)i < w_cnt && (w_keys[i] != 2 * ((uint64_t)i + 1) || w_vals[i] != w_keys[i] * 3 + 1)) ok = 0;
+    CHECK(ok, "copy: same keys and values");
+    rb_tree_clear(&t, cb_clear);
+    CHECK((t.root == NIL || t.root == NULL) && t.size == 0 && g_clear_calls == (unsigned)e_n && g_frees == (unsigned)e_n, "clear: empty, callback once per member, every node released once");
+    inv_walk(&z, 0, 5);
+    CHECK(w_bad == 0 && w_cnt == (size_t)e_n && sentinel_clean(), "clearing the source leaves the copy intact");
+    e_runs++;
+  }
+  CHECK(e_runs > 0, "walk: runs");
+  CANARY();
+}
+#endif
